@@ -131,6 +131,8 @@ func extHelpers(t rt.TypeRef) (string, string) {
 		return fmt.Sprintf("MkW%d", t.I), fmt.Sprintf("TagW%d", t.I)
 	case "U":
 		return fmt.Sprintf("ext2.MkU%d", t.I), fmt.Sprintf("ext2.TagU%d", t.I)
+	case "V":
+		return fmt.Sprintf("ext4.MkV%d", t.I), fmt.Sprintf("ext4.TagV%d", t.I)
 	case "int":
 		return "MkInt", "TagInt"
 	case "string":
@@ -145,6 +147,8 @@ func extType(t rt.TypeRef) string {
 		return fmt.Sprintf("W%d", t.I)
 	case "U":
 		return fmt.Sprintf("ext2.U%d", t.I)
+	case "V":
+		return fmt.Sprintf("ext4.V%d", t.I)
 	}
 	return t.Go()
 }
@@ -744,6 +748,7 @@ var reEnv = regexp.MustCompile(`\benv\b`)
 var (
 	reExt  = regexp.MustCompile(`\bext\.`)
 	reExt2 = regexp.MustCompile(`\bext2\.`)
+	reExt4 = regexp.MustCompile(`\bext4\.`)
 )
 
 // decor returns surrounding declarations (kept verbatim by cff).
@@ -785,6 +790,7 @@ func RenderFileAs(f *FileSpec, pkgAuto bool, regSuffix string) (src, side string
 	all := strings.Join(bodies, "\n")
 	needExt := reExt.MatchString(all)
 	needExt2 := reExt2.MatchString(all)
+	needExt4 := reExt4.MatchString(all)
 	side = strings.Join(decls, "\n")
 	var x w
 	x.sb.WriteString(f.Header)
@@ -828,6 +834,9 @@ func RenderFileAs(f *FileSpec, pkgAuto bool, regSuffix string) (src, side string
 	}
 	if needExt2 {
 		imp("", "vcase/ext2")
+	}
+	if needExt4 {
+		imp("", "vcase/ext4/v2")
 	}
 	imp("", "vcase/rt")
 	x.f(")")
@@ -919,10 +928,11 @@ func SideSource(side string) string {
 	x.f("")
 	x.f("\t\"vcase/ext\"")
 	x.f("\t\"vcase/ext2\"")
+	x.f("\t\"vcase/ext4/v2\"")
 	x.f("\t\"vcase/rt\"")
 	x.f(")")
 	x.f("")
-	x.f("var (\n\t_ = context.Background\n\t_ = ext.MkW1\n\t_ = ext2.MkU1\n\t_ = rt.MapKey\n)")
+	x.f("var (\n\t_ = context.Background\n\t_ = ext.MkW1\n\t_ = ext2.MkU1\n\t_ = ext4.MkV1\n\t_ = rt.MapKey\n)")
 	x.f("")
 	x.sb.WriteString(side)
 	return x.sb.String()
@@ -950,6 +960,7 @@ func SupportSource() string {
 	x.f("")
 	x.f("\t\"vcase/ext\"")
 	x.f("\t\"vcase/ext2\"")
+	x.f("\t\"vcase/ext4/v2\"")
 	x.f("\t\"vcase/rt\"")
 	x.f(")")
 	x.f("")
@@ -989,6 +1000,8 @@ func SupportSource() string {
 		x.f("func tag_W%[1]d(v ext.W%[1]d) uint64 { return ext.TagW%[1]d(v) }", i)
 		x.f("func mk_U%[1]d(t uint64) ext2.U%[1]d { return ext2.MkU%[1]d(t) }", i)
 		x.f("func tag_U%[1]d(v ext2.U%[1]d) uint64 { return ext2.TagU%[1]d(v) }", i)
+		x.f("func mk_V%[1]d(t uint64) ext4.V%[1]d { return ext4.MkV%[1]d(t) }", i)
+		x.f("func tag_V%[1]d(v ext4.V%[1]d) uint64 { return ext4.TagV%[1]d(v) }", i)
 	}
 	for i := 1; i <= 3; i++ {
 		x.f("type I%d interface{ Tag%d() uint64 }", i, i)
@@ -1043,10 +1056,11 @@ func ExtSource(fns []string) string {
 	x.f("\t\"strconv\"")
 	x.f("")
 	x.f("\t\"vcase/ext2\"")
+	x.f("\t\"vcase/ext4/v2\"")
 	x.f("\t\"vcase/rt\"")
 	x.f(")")
 	x.f("")
-	x.f("var (\n\t_ = context.Background\n\t_ = rt.MapKey\n\t_ = ext2.MkU1\n)")
+	x.f("var (\n\t_ = context.Background\n\t_ = rt.MapKey\n\t_ = ext2.MkU1\n\t_ = ext4.MkV1\n)")
 	for i := 1; i <= 4; i++ {
 		x.f("// W%d is a type of an imported package.", i)
 		x.f("type W%d struct{ Tag uint64 }", i)
@@ -1085,6 +1099,23 @@ func Ext2Source() string {
 	return x.sb.String()
 }
 
+// Ext4Source renders package ext4, which lives at the major-version import
+// path vcase/ext4/v2 and is never imported by program files.
+func Ext4Source() string {
+	var x w
+	x.f("// Package ext4 lives at a major-version import path (vcase/ext4/v2).")
+	x.f("package ext4")
+	for i := 1; i <= 4; i++ {
+		x.f("// V%d is a type of a package the program files do not import.", i)
+		x.f("type V%d struct{ Tag uint64 }", i)
+		x.f("// MkV%d builds a V%d.", i, i)
+		x.f("func MkV%[1]d(t uint64) V%[1]d { return V%[1]d{Tag: t} }", i)
+		x.f("// TagV%d reads the tag.", i)
+		x.f("func TagV%[1]d(v V%[1]d) uint64 { return v.Tag }", i)
+	}
+	return x.sb.String()
+}
+
 // WriteModule writes the whole case module (module vcase) under dir.
 // rtDir is the directory of the rt package to copy; repo the cff checkout.
 func WriteModule(dir string, p *PackageSpec, rtDir, repo string) error {
@@ -1112,6 +1143,7 @@ func WriteModule(dir string, p *PackageSpec, rtDir, repo string) error {
 	files["p/support.go"] = SupportSource()
 	files["ext/ext.go"] = ExtSource(extFns)
 	files["ext2/ext2.go"] = Ext2Source()
+	files["ext4/v2/ext4.go"] = Ext4Source()
 	files["odd/v2/odd.go"] = "// Package odd lives in a directory that is not named after it.\npackage odd\n\n// Marker is referenced by importing files.\nconst Marker = 2\n"
 	bc := func(tag string, t, f bool, n int) string {
 		return fmt.Sprintf("//go:build %s\n\npackage p\n\n// Constants whose value depends on the build configuration. cff runs without\n// the verifb tag, the program is built with it.\nconst (\n\tbcTrue  = %v\n\tbcFalse = %v\n\tbcN     = %d\n)\n", tag, t, f, n)
